@@ -97,9 +97,11 @@ pub fn run(pid: &'static str, thorough: bool) -> i32 {
             rep.extend(a.violations);
             rep.extend(b.violations);
             rep.sample(json!({"u1_history": full.labels(&full.alphabet.iter().cloned().step_by(full.alphabet.len() / 3 + 1).collect::<Vec<_>>())}));
-            {
-                let (orders, steps, maxt, v) = hist::explore_long(full, pid);
-                rep.set("u1_long_histories", json!({"orders": orders, "members_registered_per_order": full.u.len(), "registrations": steps, "entries_in_final_registry": maxt}));
+            for which in ["U1", "U1+U3"] {
+                let t0 = std::time::Instant::now();
+                let (orders, steps, members, maxt, v) = hist::explore_long(full, pid, which, thorough);
+                eprintln!("[timing] long histories over {which}: {orders} orders, {steps} registrations, {maxt} entries in {:.1}s", t0.elapsed().as_secs_f64());
+                rep.set(if which == "U1" { "u1_long_histories" } else { "u1_u3_long_histories" }, json!({"orders": orders, "members_registered_per_order": members, "registrations": steps, "entries_in_final_registry": maxt}));
                 states += orders;
                 transitions += steps;
                 rep.extend(v);
@@ -164,7 +166,7 @@ pub fn run(pid: &'static str, thorough: bool) -> i32 {
                 transitions += r.calls;
                 rep.extend(r.violations);
             }
-            rep.set("rule", json!("(a) stateright BFS over registration histories of the static universe U1 (register_type for every member incl. every alias family, register_types pairs, into_portable / map_into_portable of definitions, fields, variants, parameters) to the depth bound, state key = Debug of the real Registry; (a') size-related behaviour: every member of U1 registered in one history, for every rotation of the member list and its reversal, the property's oracle evaluated after every registration; (b) every type graph of the U2 plans x every root sequence with repetition (x every permutation of every root set for C11); each transition runs the real Registry and the property's oracle"));
+            rep.set("rule", json!("(a) stateright BFS over registration histories of the static universe U1 (register_type for every member incl. every alias family, register_types pairs, into_portable / map_into_portable of definitions, fields, variants, parameters) to the depth bound, state key = Debug of the real Registry; (a') size-related behaviour: every member of U1 registered in one history, for every rotation of the member list and its reversal, and every member of U1+U3 (built-in constructors nested to depth 2: more than a thousand entries) for 8 (thorough 16) evenly spaced rotations and their reversals, the property's oracle evaluated after every registration; (b) every type graph of the U2 plans x every root sequence with repetition (x every permutation of every root set for C11); each transition runs the real Registry and the property's oracle"));
         }
     }
     rep.set("states", json!(states));
